@@ -119,8 +119,8 @@ func (fr *frame) pos() string {
 
 func shortPos(p token.Position) string {
 	f := p.Filename
-	if i := strings.Index(f, "/repo/"); i >= 0 {
-		f = f[i+6:]
+	if strings.HasPrefix(f, repoRoot+"/") {
+		f = f[len(repoRoot)+1:]
 	} else if i := strings.LastIndex(f, "/src/"); i >= 0 {
 		f = f[i+5:]
 	}
